@@ -178,6 +178,14 @@ func checkPrefix(c *Ctx, rule string, f *ssa.Function) int {
 				v, _ := constant.Int64Val(k.Value)
 				x, pos, need = s.X, s.Pos(), v+1
 			}
+		case *ssa.Index:
+			if !isStringType(s.X.Type()) {
+				return
+			}
+			if k, ok := s.Index.(*ssa.Const); ok && k.Value != nil {
+				v, _ := constant.Int64Val(k.Value)
+				x, pos, need = s.X, s.Pos(), v+1
+			}
 		}
 		if x == nil || need <= 0 {
 			return
